@@ -138,11 +138,22 @@ class DaemonCrash(Exception):
         self.msg, self.scen = msg, scen
 
 
+class DaemonExit(Exception):
+    """the daemon called os.Exit(0) (it does so when config.toml changes in a relevant way)"""
+    def __init__(self, events):
+        Exception.__init__(self, "daemon exited")
+        self.events = events
+
+
 def run_e2e(ctx, binp, scen, name):
     sp, op = ctx.path("e2e", name + ".json"), ctx.path("e2e", name + ".ndjson")
     json.dump(scen, open(sp, "w"))
-    r = subprocess.run([binp, "-test.run", "^TestVerifE2E$"], env=dict(os.environ, VERIF_SCEN=sp, VERIF_OUT=op),
+    tmpd = ctx.path("e2e", "tmp", "x")[:-2]
+    os.makedirs(tmpd, exist_ok=True)
+    r = subprocess.run([binp, "-test.run", "^TestVerifE2E$", "-test.paniconexit0"], env=dict(os.environ, VERIF_SCEN=sp, VERIF_OUT=op, TMPDIR=tmpd),
                        capture_output=True, text=True, timeout=300)
+    if r.returncode != 0 and "unexpected call to os.Exit(0) during test" in (r.stdout + r.stderr):
+        raise DaemonExit(vlib.read_ndjson(op) if os.path.exists(op) else [])
     if r.returncode != 0 and "panic:" in (r.stdout + r.stderr) and "goroutine" in (r.stdout + r.stderr):
         # the daemon itself crashed on a valid scenario: that is behaviour of the code under test, not of the harness
         raise DaemonCrash((r.stdout + r.stderr)[-2500:], scen)
@@ -501,6 +512,47 @@ def c04_window_runs(ctx, binp):
         runs.append(dict(kind="predict", settings=settings, fps=fps, model=model, model_events=ev, result=last, scen=scen,
                          expected_motion={}))
     return runs
+
+
+def cfgwatch_runs(ctx, binp):
+    """Beyond the listed properties (ConfigWatch.tla): config.toml is rewritten while runMain runs.  Returns the trace
+    for ConfigWatchTrace.tla, or None when the file watcher does not work in this sandbox."""
+    rng = ctx.rng
+    trace = []
+    base = dict(min=1, max=2, preview=1, const=False, throttle=False, motion=dict(FIXED_MOTION, **{"trigger-frames": 1}), device="dev", deviceid=7)
+    def variant(r, m, valid):
+        s2 = json.loads(json.dumps(base))
+        s2["min"] = 1 + (r % 2); s2["device"] = "dev%d" % (r // 2)          # r: everything but the motion section
+        s2["motion"]["delta-thresh"] = 10 + m                                # m: the motion section
+        txt = toml(s2)
+        return txt if valid else txt.replace("min-secs = %d" % s2["min"], "min-secs = 99")      # max-secs < min-secs: rejected
+    for k in range(2 if ctx.tier == "quick" else 8):
+        r0, m0 = rng.randrange(4), rng.randrange(3)
+        writes = []
+        for j in range(rng.randint(1, 3)):           # changes the daemon must survive
+            kind = rng.choice(["same", "motion", "invalid", "invalid-relevant"])
+            writes.append(dict(same=(r0, m0, True), motion=(r0, (m0 + 1 + j) % 3, True), invalid=(r0, m0, False))
+                          .get(kind, ((r0 + 1) % 4, m0, False)))
+        writes.append(((r0 + rng.randint(1, 3)) % 4, rng.randrange(3), True))      # and one that must make it exit
+        conn, ev, fid = build_conn(rng, base, 4, 3, 3, "lepton3", 1, 8, with_clear=False)
+        scen = dict(config=variant(r0, m0, True), prefiles=[], conns=[conn],
+                    rewrites=[dict(toml=variant(r, m, v), wait_ms=700) for (r, m, v) in writes])
+        trace.append(dict(ev="cw-start", r=r0, m=m0))
+        try:
+            evs = run_e2e(ctx, binp, scen, "cw_%d" % k)
+            exited = False
+        except DaemonExit as de:
+            evs, exited = de.events, True
+        rw = [e for e in evs if e["ev"] == "e2e-rewrite"]
+        if any(e["nochange"] + e["errors"] == 0 for e in rw):
+            # a rewrite the daemon survived without logging anything: its watcher did not see the event in time
+            return None, "the daemon's file watcher did not report a rewrite within 700 ms (inotify unavailable or slow)"
+        for j, (r, m, v) in enumerate(writes):
+            trace.append(dict(ev="cw-write", r=r, m=m, valid=v))
+            trace.append(dict(ev="cw-handle", exited=(exited and j == len(rw))))
+            if exited and j == len(rw):
+                break
+    return trace, None
 
 
 def c17_reconnect_runs(ctx, binp):
